@@ -108,7 +108,7 @@ def scenario_for(cfg, mode):
             # one data table per attribute (independent attributes): x_k >= 0 with the same total N >= 1
             N = V.real("N", "p")
             if V.symbolic:
-                core.ST.assume(N.n >= 1)                          # ... with N >= 1 records
+                core.ST.assume(N.term() >= 1)                        # ... with N >= 1 records
         for k, (pat, n, spell) in enumerate(fam):
             Q = PATTERNS[pat](n)
             if mode == "noisefree":
